@@ -20,6 +20,9 @@ CHECKS = {
  "C11": ("exploration", "runtime monitoring: conservation equation from an allocation probe + Observer stats vs hook snapshot + max file extent on the simulated disk",
          "Long generated histories on bounded files that never enable the overflow area; at every quiescent point allocatable(probe)+live+meta+2 == max pages, FileStats from the Observer equal harness truth, no page below the end marker is unowned, and the simulated disk's maximum extent stays within the configured size.",
          "DESIGN.md 4 (C11)", SIM),
+ "C14": ("exploration", "runtime monitoring: model differential across resize-on-open + lock-state hook + allocation probe + max file extent on the simulated disk",
+         "Generated prefix histories x (old max, new max, prealloc) x follow-up histories; after the resizing Open the hooked lock state must be idle (then both transaction kinds are started), contents equal the model, growth adds exactly the new pages to the probe capacity, after shrink the simulated disk's extent stays <= max(previous extent, new limit), and a later plain open reports the new limit.",
+         "DESIGN.md 4 (C14)", SIM),
  "C03": ("exploration", "runtime monitoring: model-based differential execution on a simulated disk with controlled writer stalls (+race detector slice)",
          "Real txfile code is driven by PRNG-generated transaction programs on a simulated disk; a sequential page model is compared in a read transaction after every transaction end, on every in-transaction read and after reopen, while a gate stalls the background writer so that several transactions' page writes share one writer batch. Held-on-explored-executions assurance; right level because the property quantifies over histories and writer timings that cannot be enumerated.",
          "DESIGN.md 4 (C03)", SIM),
